@@ -90,14 +90,14 @@ def discover_inventory(rep):
     return inv, path
 
 
-def enumerate_histories(rep, nc, length, alphabet, tag, inv_file=None, inv_sub="all", novel=False):
+def enumerate_histories(rep, nc, length, alphabet, tag, inv_file=None, inv_sub="all", novel=False, bb="0"):
     """-> (histories as JSON text, the parameters the specification printed: limits, gap, names, work, forms)"""
-    env = {"ALPHABET": alphabet, "NOVEL": "1" if novel else "0", "INV_SUB": inv_sub}
+    env = {"ALPHABET": alphabet, "NOVEL": "1" if novel else "0", "INV_SUB": inv_sub, "BB": bb}
     if inv_file:
         env.update({"INV_FILE": inv_file})
     res = tlc.run(rep.pid, "C12", ENUM_CFG % consts(nc, length, [1], []), env=env,
                   timeout=1500, tag=tag, heap="4g")
-    rep.add_tlc("C12.Enum(%s,len=%d,nc=%d)" % (alphabet, length, nc), res)
+    rep.add_tlc("C12.Enum(%s,len=%d,nc=%d%s)" % (alphabet, length, nc, ",bb=" + bb if bb != "0" else ""), res)
     limits, seen, hs, invrec = None, set(), [], None
     for r in res.records:
         if "limits" in r:
@@ -105,7 +105,7 @@ def enumerate_histories(rep, nc, length, alphabet, tag, inv_file=None, inv_sub="
         elif "inv_ok" in r:
             invrec = r
         elif "h" in r:
-            k = json.dumps({"h": r["h"], "tj": r["tj"], "late": r["late"], "cls": r["cls"]}, separators=(",", ":"))
+            k = json.dumps({"h": r["h"], "tj": r["tj"], "late": r["late"], "bb": r["bb"], "cls": r["cls"]}, separators=(",", ":"))
             if k not in seen:
                 seen.add(k)
                 hs.append(k)              # kept as text: half a million histories as dicts would cost gigabytes
@@ -127,7 +127,7 @@ def simulate_histories(rep, nc, length, num, tag):
     seen, hs = set(), []
     for r in res.records:
         if "h" in r:
-            k = json.dumps({"h": r["h"], "tj": r["tj"], "late": r["late"], "cls": r["cls"]}, separators=(",", ":"))
+            k = json.dumps({"h": r["h"], "tj": r["tj"], "late": r["late"], "bb": r["bb"], "cls": r["cls"]}, separators=(",", ":"))
             if k not in seen:
                 seen.add(k)
                 hs.append(k)
@@ -165,26 +165,37 @@ def run(rep):
     FAMILY = {"inv": "inv", "invfull": "inv", "text": "text", "kept": "kept", "carry": "carry"}
     if rep.tier == "quick":
         plan = [(2, 3, "full", None), (2, 2, "redecl", None), (1, 3, "redecl1", None), (2, 2, "inv", "quick"),
-                (2, 3, "text", "quick"), (2, 3, "kept", "quick"), (2, 3, "carry", "quick")]
+                (2, 3, "text", "quick"), (2, 3, "kept", "quick", "both"), (2, 3, "carry", "quick", "both"),
+                (1, 3, "core", None, "1")]
     else:
         plan = [(2, 3, "redecl", None), (2, 4, "core", None), (1, 4, "redecl1", None),
                 (2, 3, "inv", "all"), (2, 2, "invfull", "all"),
-                (2, 4, "text", "all"), (2, 3, "kept", "all"), (2, 4, "carry", "all")]
+                (2, 4, "text", "all"), (2, 3, "kept", "all", "both"), (2, 4, "carry", "all", "both"),
+                (2, 3, "full", None, "1"), (1, 4, "redecl1", None, "1")]
+    # 5th element: back to back (C12!BBs) - "1": no evaluation between the events of a history, "both": each history
+    # once probed after every event and once back to back
+    plan = [pl if len(pl) == 5 else pl + ("0",) for pl in plan]
     params = None
     if only:
         plan = [pl for pl in plan if pl[2] in only]
-    for nc, length, alpha, sub in plan:
+    for nc, length, alpha, sub, bbs in plan:
         fam = FAMILY.get(alpha, "")
         novel = rep.tier == "quick" and alpha in ("redecl", "redecl1") or alpha == "kept"
-        hs, params = enumerate_histories(rep, nc, length, alpha, "enum_%s_%d" % (alpha, length),
+        hs, params = enumerate_histories(rep, nc, length, alpha, "enum_%s_%d%s" % (alpha, length, "_bb" + bbs if bbs != "0" else ""),
                                          inv_file=inv_file if fam in ("inv", "text") else None, inv_sub=sub or "all",
-                                         novel=novel)
-        if len(hs) < (1000 if not fam else 300):
+                                         novel=novel, bb=bbs)
+        got_bb = {json.loads(h)["bb"] for h in hs}
+        if got_bb != {"0": {0}, "1": {1}, "both": {0, 1}}[bbs]:
+            raise Machinery("enumeration %s: probing disciplines %r enumerated, %s asked for" % (alpha, sorted(got_bb), bbs))
+        if len(hs) < (1000 if not fam and bbs == "0" else 300):
             raise Machinery("enumeration produced only %d histories" % len(hs))
         what = {"inv": "(inventory target x late creation) x all histories",
                 "text": "(way of making an object from text x path from it x late creation) x all histories",
                 "kept": "(kind of binding x route of the making program x route of the later program) x all histories with a "
                         "making event", "carry": "(carrier x use) x all histories"}.get(fam, "all histories")
+        if bbs != "0":
+            what += (" x probing discipline (after every event / back to back: no evaluation between the events)" if bbs == "both"
+                     else ", run back to back (no evaluation between the events, one probe after the last)")
         if rep.tier == "quick" and alpha in ("redecl", "redecl1"):
             what = "all histories with at least one re-declaration (the others are in the base-catalogue space)"
         rep.spaces.append({"space": "%s of %d events over %d context(s), alphabet %s%s (TLC-enumerated; "
@@ -197,6 +208,8 @@ def run(rep):
                 raise Machinery("the specification did not print the forms of family %s" % fam)
             used = {json.loads(h)["tj"] for h in hs}
             rep.notes.setdefault("forms", {})[alpha] = {"in_specification": len(forms), "enumerated": len(used)}
+            if fam == "kept" and {forms[j - 1]["tx"] for j in used} != {"own", "same"}:
+                raise Machinery("family K: not both text modes enumerated")
         cases += [(nc, fam, forms if fam in ("kept", "carry") else None, h) for h in hs]
     limits = params["limits"]
     if rep.tier == "thorough" and not only:
@@ -221,7 +234,7 @@ def run(rep):
         for i, (nc, fam, forms, h) in enumerate(cases[b:b + CH]):
             rec = json.loads(h)
             case = {"id": b + i, "nc": nc, "limits": limits[:nc], "h": rec["h"], "tj": rec["tj"], "late": rec["late"],
-                    "fam": fam, "cls": rec["cls"], "gap": params["gap"], "names": params["names"], "work": params["work"]}
+                    "bb": rec["bb"], "fam": fam, "cls": rec["cls"], "gap": params["gap"], "names": params["names"], "work": params["work"]}
             if fam in ("inv", "text"):
                 case["target"] = inventory[rec["tj"] - 1]        # the path the specification chose, for rendering
             elif fam:
@@ -244,10 +257,11 @@ def run(rep):
             raise Machinery("trace validation returned %d verdicts for %d traces" % (len(got), len(traces)))
         bytid = {t["tid"]: t for t in traces}
         hist = {c["id"]: c["h"] for c in part}
-        tgt = {c["id"]: ("[%s %s%s%s] " % (c["target"]["via"], c["target"]["root"],
-                                            "." + c["target"]["mem"] if c["target"]["mem"] else "",
-                                            " late" if c["late"] else "")) if "target" in c
-                        else ("[%s] " % " ".join(str(v) for k, v in sorted(c["form"].items()) if v)) if "form" in c else ""
+        tgt = {c["id"]: ("[back-to-back] " if c["bb"] else "") + (
+                            ("[%s %s%s%s] " % (c["target"]["via"], c["target"]["root"],
+                                               "." + c["target"]["mem"] if c["target"]["mem"] else "",
+                                               " late" if c["late"] else "")) if "target" in c
+                            else ("[%s] " % " ".join(str(v) for k, v in sorted(c["form"].items()) if v)) if "form" in c else "")
                for c in part}
         for tid in sorted(got):
             v, t = got[tid], bytid[tid]
@@ -299,7 +313,7 @@ def run(rep):
 def selftest_shape(t):
     ks = [e["k"] for e in t["ev"]]
     # second event: one that neither reads nor writes g, so that dropping the first shows as a state mismatch
-    return t["nc"] >= 2 and len(ks) >= 2 and t["ev"][0]["c"] == t["ev"][1]["c"] and ks[0] in ("defvar", "set") and "reenter" not in ks and ks[1] in (
+    return t["nc"] >= 2 and len(ks) >= 2 and not any(e["np"] for e in t["ev"]) and t["ev"][0]["c"] == t["ev"][1]["c"] and ks[0] in ("defvar", "set") and "reenter" not in ks and ks[1] in (
         "deffun", "delete", "mut_objproto", "mut_math", "mut_arrproto", "mut_strctor", "mut_errproto", "syntax")
 
 
